@@ -32,14 +32,13 @@ inductive Item
 def digitVal? (c : Char) : Option Nat :=
   if '0' ≤ c ∧ c ≤ '9' then some (c.toNat - '0'.toNat) else none
 
-def isDigit (c : Char) : Bool := '0' ≤ c && c ≤ '9'
+def isDigit (c : Char) : Bool := c.isDigit
 
 def takeDigits : List Char → List Char × List Char
   | [] => ([], [])
   | c :: cs => if isDigit c then let r := takeDigits cs; (c :: r.1, r.2) else ([], c :: cs)
 
-def digitsToNat (ds : List Char) : Nat :=
-  ds.foldl (fun acc c => acc * 10 + (c.toNat - '0'.toNat)) 0
+def digitsToNat (ds : List Char) : Nat := Nat.ofDigitChars 10 ds 0
 
 inductive PS
   | text
@@ -287,6 +286,12 @@ def sscanf (fmt : String) (inp : List Char) : Scan (List Arg) :=
     | .ok vs _ => .ok vs []
     | r => r
   | none => .unmodelled
+
+/-- does `pat` occur in `s`? -/
+def sscanfContains (s pat : List Char) : Bool :=
+  match s with
+  | [] => pat.isEmpty
+  | _ :: r => (pat.zip s).length == pat.length && (pat.zip s).all (fun (a, b) => a == b) || sscanfContains r pat
 
 /-! ### strconv on whole strings (default encoding/xml scalar handling) -/
 
